@@ -1,8 +1,13 @@
 /-
-Model of the Skyway oracle for one remote chain and one bridge deployment (compass id):
+Model of the Skyway oracle of one remote chain (every chain has its own store prefix,
+`GetStore(ctx, chainReferenceID)`; `Props/C02.lean` builds the product over chains), with the bridge
+deployment (compass) id of the chain and its change by a chain activation:
   x/skyway/keeper/attestation.go  Attest, TryAttestation, processAttestation, GetAttestationMapping
+                                  (incl. the `lastCompassID` filter), GetLatestCompassID
   x/skyway/abci.go                attestationTally
-  x/skyway/keeper/keeper.go       overrideNonce, UpdateValidatorNoncesToLatest
+  x/skyway/keeper/keeper.go       overrideNonce, UpdateValidatorNoncesToLatest, the `EVMActivatedChain`
+                                  subscriber (`setLatestCompassID` then `overrideNonce 0`)
+Compass ids are naturals; 0 is the empty string (no deployment recorded: nothing is filtered).
 Validators, claim hashes and nonces are naturals. A claim hash is used both as identity and as
 the store order of competing attestations at one nonce (the harness passes the real 32-byte
 tmhash as a number). Voting power is an *argument of each tally* (`GetLastValidatorPower`,
@@ -12,8 +17,10 @@ store key; the histories of `Props/C02.lean` pass `totalOf table` (ASSUMPTION on
 `LastTotalPower` is the sum of the `LastValidatorPower` records, see `totalOf`).
 
 Ghost state (never read by the executable part, never printed by the driver): `epoch`,
-`epochStart` and `log`, the list of every observation made by `TryAttestation` since genesis. `Props/C02.lean` ties the log to the executable state (observed flags, cursor,
-`minted`) and to the op history.
+`epochStart` and `log`, the list of every observation made by `TryAttestation` since genesis.
+`Props/C02.lean` ties the log to the executable state (observed flags, cursor, `minted`) and to the op
+history, and `epoch` / `epochStart` to the reset ops of the history (`epoch_is_number_of_resets`,
+`epochStart_is_last_reset`).
 Core Lean only.
 -/
 namespace Paloma.Oracle
@@ -26,6 +33,7 @@ structure Att where
   observed : Bool
   applicable : Bool      -- does the attestation handler succeed on this claim?
   amount : Nat := 0      -- what the claim mints when applied (part of the claim, covered by the hash)
+  compass : Nat := 0     -- `GetCompassID()` of the stored (first submitted) claim (covered by the hash)
 deriving Repr, DecidableEq
 
 /-- ghost: one observation made by `TryAttestation`: claim `(nonce, hash)` was marked observed and handed
@@ -40,6 +48,10 @@ structure Obs where
   amount : Nat
   /-- the vote list of the attestation at that moment -/
   voters : List Nat
+  /-- the compass id of the observed claim -/
+  compass : Nat := 0
+  /-- the latest compass id of the chain at that moment (0: none recorded) -/
+  deployment : Nat := 0
 deriving Repr, DecidableEq
 
 /-- what an observation minted -/
@@ -52,6 +64,8 @@ structure St where
   atts : List Att
   /-- total minted by applied claims since genesis (the observable effect) -/
   minted : Nat := 0
+  /-- `LatestCompassIDKey`: the bridge deployment whose claims are tallied; 0 = "" (none recorded) -/
+  compassId : Nat := 0
   /-- ghost: number of governance resets so far -/
   epoch : Nat := 0
   /-- ghost: the cursor value installed by the last governance reset (0 at genesis) -/
@@ -96,16 +110,18 @@ inductive Res where
 deriving Repr, DecidableEq
 
 /-- the stored attestation for `(n, h)`, or a fresh one carrying the submitted claim -/
-def attFor (s : St) (n h eth : Nat) (applicable : Bool) (amount : Nat) : Att :=
+def attFor (s : St) (n h eth : Nat) (applicable : Bool) (amount : Nat) (compass : Nat := 0) : Att :=
   (findAtt s.atts n h).getD
-    { nonce := n, hash := h, eth := eth, votes := [], observed := false, applicable := applicable, amount := amount }
+    { nonce := n, hash := h, eth := eth, votes := [], observed := false, applicable := applicable, amount := amount,
+      compass := compass }
 
-/-- `Attest` (through a claim message of a bonded validator). -/
-def vote (s : St) (v n h eth : Nat) (applicable : Bool) (amount : Nat := 0) : St × Res :=
+/-- `Attest` (through a claim message of a bonded validator). The claim's compass id is not looked at here:
+a vote for a claim of any deployment is stored. -/
+def vote (s : St) (v n h eth : Nat) (applicable : Bool) (amount : Nat := 0) (compass : Nat := 0) : St × Res :=
   if n ≠ lastNonceOf s v + 1 then (s, .rejected) else
-  if (attFor s n h eth applicable amount).eth ≠ eth then (s, .rejected) else
-  ({ s with atts := putAtt s.atts { attFor s n h eth applicable amount with
-                                     votes := addVote (attFor s n h eth applicable amount).votes v },
+  if (attFor s n h eth applicable amount compass).eth ≠ eth then (s, .rejected) else
+  ({ s with atts := putAtt s.atts { attFor s n h eth applicable amount compass with
+                                     votes := addVote (attFor s n h eth applicable amount compass).votes v },
             valNonce := setNonce s.valNonce v n }, .ok)
 
 /-- running sum with early exit: does some prefix of `votes` exceed `required`? -/
@@ -139,7 +155,8 @@ def requiredPower (total : Nat) : Nat := votesPowerThreshold * total / powerDivi
 /-- ghost record of the observation of attestation `a` out of state `s` -/
 def mkObs (s : St) (a : Att) : Obs :=
   { epoch := s.epoch, nonce := a.nonce, hash := a.hash, cursorBefore := s.lastObserved, eth := a.eth,
-    applicable := a.applicable, amount := a.amount, voters := a.votes }
+    applicable := a.applicable, amount := a.amount, voters := a.votes, compass := a.compass,
+    deployment := s.compassId }
 
 /-- the state change of a successful `TryAttestation`: height recorded, cursor moved, attestation stored as
 observed, claim handed to the handler (`processAttestation`; the effect is `minted`) -/
@@ -194,8 +211,12 @@ def tallyKeys (s : St) (snap : List Att) (power : Nat → Nat) (total : Nat) (ef
     if (tallyAtts s power total n ef (attsAt snap n)).2 then (tallyAtts s power total n ef (attsAt snap n)).1
     else tallyKeys (tallyAtts s power total n ef (attsAt snap n)).1 snap power total ef rest
 
+/-- `GetAttestationMapping`: with a latest compass id on record, attestations whose stored claim comes from
+another bridge deployment are left out of the mapping (and so are never tallied) -/
+def visible (s : St) : List Att := s.atts.filter (fun a => s.compassId == 0 || a.compass == s.compassId)
+
 def tally (s : St) (power : Nat → Nat) (total : Nat) (ef : EventFault := noFault) : St :=
-  tallyKeys s s.atts power total ef (nonceKeys s.atts)
+  tallyKeys s (visible s) power total ef (nonceKeys (visible s))
 
 /-- `UpdateValidatorNoncesToLatest` (every 50th block) -/
 def catchUp (s : St) : St :=
@@ -205,6 +226,10 @@ def catchUp (s : St) : St :=
 def override (s : St) (n : Nat) : St :=
   { s with lastObserved := n, valNonce := s.valNonce.map (fun p => (p.1, n)),
            epoch := s.epoch + 1, epochStart := n }
+
+/-- the `EVMActivatedChain` subscriber of the skyway keeper (chain activation / bridge re-deployment):
+`setLatestCompassID`, then `overrideNonce(…, 0)` — a deployment switch is always a reset of the cursor -/
+def activate (s : St) (c : Nat) : St := override { s with compassId := c } 0
 
 def powerOf (tbl : List (Nat × Nat)) (v : Nat) : Nat :=
   match tbl.find? (fun p => p.1 == v) with
